@@ -1,9 +1,12 @@
+//go:build go1.25
+
 // C20: the announce queue holds each torrent once and serves them in order.
 // E3 (queue level): explicit-state BFS over all Add/Next/Ready/Eject histories
 // on the REAL announcequeue.QueueImpl, compared step by step with a reference
 // model (FIFO list of waiting torrents + set of torrents with an announce in
-// flight). The scheduler-level monitor (Add precondition kept by the event
-// handlers) belongs to the C17/C18 harness, not to this check.
+// flight). Scheduler level (E1q, harness verif/schedh shared with C17): over all
+// explored orders of scheduler events the real event handlers never call Add for
+// a torrent that is still in the queue (the queue documents that as undefined).
 package main
 
 import (
@@ -12,14 +15,18 @@ import (
 	"os"
 	"sort"
 	"strings"
+	"testing"
 
 	"github.com/uber/kraken/core"
 	"github.com/uber/kraken/lib/torrent/scheduler/announcequeue"
 
 	"verif/bfs"
+	"verif/e1q"
 	"verif/evid"
 	_ "verif/quiet"
 	"verif/rep"
+	"verif/schedh"
+	"verif/vrt"
 )
 
 func hashOf(i int) core.InfoHash {
@@ -305,9 +312,46 @@ func searchConfig(n, depth int, sink *classSink) bfs.Config {
 func searchName(n, depth int) string { return fmt.Sprintf("queue torrents=%d depth<=%d", n, depth) }
 
 func main() {
+	e1q.Main(func(t *testing.T) {
+		var hs []*vrt.Harness
+		for _, sc := range schedh.Scenarios(true) {
+			hs = append(hs, only(schedh.Harness(sc)))
+		}
+		vrt.WorkerMain(hs)
+		realMain()
+	})
+}
+
+// only keeps the C20 clause (announce-queue Add precondition) of the shared
+// scheduler harness's verdict.
+func only(h *vrt.Harness) *vrt.Harness {
+	h.Name = "scheduler: " + h.Name
+	inner := h.RunOnce
+	h.RunOnce = func(prefix []int) (*vrt.Exec, string, string) {
+		x, obs, vio := inner(prefix)
+		return x, obs, schedh.Filter(vio, "C20")
+	}
+	return h
+}
+
+func schedulerPart(run *evid.Run) {
+	maxDur := 40
+	if run.Thorough() {
+		maxDur = 240
+	}
+	for _, sc := range schedh.Scenarios(run.Thorough()) {
+		h := only(schedh.Harness(sc))
+		res := rep.VRT(run, h, sc.Bound, evid.Workers(), maxDur, func(v vrt.Violation) string {
+			return strings.SplitN(v.Msg, ";", 2)[0]
+		})
+		run.AddInt("scheduler_level_executions", int64(res.Executions))
+	}
+}
+
+func realMain() {
 	run := evid.New("C20", "model_checking")
 	run.Rule = "every history of Add(x) [only when the model says x is not in the queue: double Add is documented as undefined], Next, Ready(x), Eject(x) over n torrents, BFS to the fixpoint of the state graph (state = model FIFO list + in-flight set + full snapshot of the real queue); every transition executed on the real QueueImpl and compared with the model: Next result, no torrent twice / in both sets, Ready of a non-in-flight torrent changes nothing, Eject removes it everywhere, waiting order = arrival order. distinct = distinct reachable states per n."
-	run.Assume("queue level only: Ready(h) is the queue's only notion of 'the in-flight announce finished'; that the scheduler never calls Add for a torrent still in the queue is checked by the scheduler monitor (C17/C18 harness), not here")
+	run.Assume("queue level: Ready(h) is the queue's only notion of 'the in-flight announce finished'; scheduler level: that the event handlers never call Add for a torrent still in the queue is monitored over all explored event orders of the shared scheduler harness (verif/schedh)")
 	run.Assume("small-scope: n torrents (see searches); the state graph is finite for fixed n and searched to its fixpoint, so histories of any length over these torrents are covered")
 	run.Assume("QueueImpl has no state besides readyQueue and pending (both exposed read-only through an overlay-added snapshot method)")
 
@@ -336,6 +380,7 @@ func main() {
 			total.add(c, k)
 		}
 	}
+	schedulerPart(run)
 	cc := total.totals()
 	run.Set("transition_classes", cc)
 	// vacuity: the interesting transitions must have occurred
